@@ -325,6 +325,36 @@ def inline_single_use_temps(fn, only_bool=False):
     return fn
 
 
+def unroll_literal_loops(fn):
+    """for x in ("a", "b"): body  ->  body[x:="a"]; body[x:="b"]   for loops over a short literal tuple / list of constants whose
+    body neither re-binds x nor leaves the loop early (in place, on a cloned function)"""
+    def fix(stmts):
+        out = []
+        for s in stmts:
+            for fld in ("body", "orelse", "finalbody"):
+                blk = getattr(s, fld, None)
+                if isinstance(blk, list) and blk and isinstance(blk[0], ast.stmt):
+                    setattr(s, fld, fix(blk))
+            if isinstance(s, ast.For) and not s.orelse and isinstance(s.target, ast.Name) and isinstance(s.iter, (ast.Tuple, ast.List)) \
+                    and 1 <= len(s.iter.elts) <= 6 and all(isinstance(e, ast.Constant) for e in s.iter.elts) \
+                    and not any(isinstance(x, (ast.Break, ast.Continue)) for y in s.body for x in ast.walk(y)) \
+                    and not any(isinstance(x, ast.Name) and x.id == s.target.id and isinstance(x.ctx, ast.Store) for y in s.body for x in ast.walk(y)):
+                v = s.target.id
+                for e in s.iter.elts:
+                    class S(ast.NodeTransformer):
+                        def visit_Name(self, m):
+                            if m.id == v and isinstance(m.ctx, ast.Load):
+                                return ast.copy_location(ast.Constant(value=e.value), m)
+                            return m
+                    out += [S().visit(clone_ast(b)) for b in s.body]
+                continue
+            out.append(s)
+        return out
+    fn.body = fix(fn.body)
+    ast.fix_missing_locations(fn)
+    return fn
+
+
 def decontinue(fn):
     """loop body `if C: continue` followed by the rest  ->  `if not C: rest`  (in place, on a cloned function)"""
     def fix(stmts, in_loop):
@@ -540,7 +570,7 @@ class Model:
         if (cls, name) not in cache:
             fn = self.own_method(cls, name)
             if fn is not None:
-                fn = inline_pure_aliases(fn)
+                fn = unroll_literal_loops(inline_pure_aliases(fn))
                 for node in ast.walk(fn):
                     for ch in ast.iter_child_nodes(node):
                         ch._parent = node
